@@ -1,5 +1,6 @@
 import Fabio.Driver.Proto
 import Fabio.Model.C08
+import Fabio.Model.C08Serve
 /-!
 Driver handlers for C08.  `agree` compares the model with the real code; `spec` evaluates the sentences of
 the property on the implementation's own output with reference functions that do not use the model's
@@ -191,7 +192,9 @@ def degenerateCfg (cfg : Cfg) : Bool :=
   let tlsh := lowerS (l2s cfg.tlsHeader)
   let rid := lowerS (l2s cfg.requestID)
   let bad (n : String) := n != "" && !((s2l n).all isTokenChar)
-  cip == "connection" || tlsh == "connection" || rid == "connection" ||
+  -- a header the reverse proxy removes from every request (net/http/httputil hopHeaders)
+  let hop (n : String) := (fixedHopByHop.map fun k => lowerS (l2s k)).contains n
+  hop cip || hop tlsh || hop rid ||
   (tlsh != "" && managedLower.contains tlsh) || (rid != "" && managedLower.contains rid) ||
   (cip != "" && managedLower.contains cip && cip != "x-forwarded-for" && cip != "x-real-ip") ||
   (cip != "" && (cip == tlsh || cip == rid)) || (tlsh != "" && tlsh == rid) ||
@@ -294,19 +297,16 @@ def proxyH : Handler := fun inp impl => do
   let iHost := getStrD impl "uhost"
   let status := getNatD impl "status"
   let reached := getBoolD impl "reached"
-  let m := serve cfg (s2l uuid) (s2l hostOpt) (s2l target) (s2l strip) r
-  let (mHdr, mHost, mSts, mOk) := match m with
-    | none => (([] : SHdrs), "", ([] : List String), false)
-    | some u =>
-      -- websocket upgrades are tunnelled with the headers as they are; everything else goes through
-      -- httputil.ReverseProxy, which drops what the client's Connection header names and then appends the
-      -- peer to X-Forwarded-For (assumption, see Model)
-      let h := if isWebsocket u.headers then u.headers else reverseProxy (s2l peer) u.headers
+  -- the whole of ServeHTTP as modelled: request-id, addHeaders, Host override, response headers, handler choice
+  -- (websocket upgrades are tunnelled with the headers as they are; everything else goes through
+  -- httputil.ReverseProxy, which drops what the client's Connection header names and then appends the peer to
+  -- X-Forwarded-For - assumption, see Model), what the client reads as Strict-Transport-Security
+  let out := serveHTTP cfg (s2l uuid) (some { hostOpt := s2l hostOpt, strip := s2l strip, targetHost := s2l target }) r
+  let (mHdr, mHost, mSts, mOk) := match out with
+    | .forward _ uh sent _ =>
       -- http.Transport / Request.Write send the URL's host when Request.Host is empty
-      -- a websocket handshake response is the upstream's bytes relayed over the hijacked connection:
-      -- nothing fabio put into its ResponseWriter's header map is sent
-      (proj (toS h), (if u.host.isEmpty then target else l2s u.host),
-       (if isWebsocket u.headers then [] else recv (toS u.resp) "Strict-Transport-Security"), true)
+      (proj (toS sent), (if uh.isEmpty then target else l2s uh), (clientSTS out).map l2s, true)
+    | _ => (([] : SHdrs), "", ([] : List String), false)
   let model := Json.mkObj [("ok", mOk), ("uhost", mHost), ("hdr", hdrsJson mHdr), ("sts", Json.arr (mSts.map Json.str).toArray)]
   let agree := !isPanic && mOk && reached && proj iHdr == mHdr && iHost == mHost && iSts == mSts
   let failing :=
@@ -331,5 +331,82 @@ def proxyH : Handler := fun inp impl => do
   return ({ model := model, agree := agree, spec := failing.isEmpty,
             nontrivial := forgedCount wire cfg > 0 || hostOpt != "" || tlsOn, tag := tag } : Verdict).toJson
 
-def streams : List (String × Handler) := [("c08.unit", unitH), ("c08.proxy", proxyH), ("c08.hopbyhop", proxyH)]
+/-! ### c08.serve: the real `ServeHTTP` in-process, recording transport -/
+
+def kindName (k : HandlerKind) : String :=
+  match k with
+  | .tunnel => "tunnel"
+  | .sse => "forward"      -- which flush interval the reverse proxy was built with is not observable in headers
+  | .proxy => "forward"
+
+def serveH : Handler := fun inp impl => do
+  let wire := parseWire inp
+  let cfg := parseCfg inp
+  let host := getStrD inp "host"
+  let remote := getStrD inp "remote"
+  let tls : Option TLS := match inp.getObjVal? "tls" with
+    | .ok (.obj o) => some { version := getNatD (.obj o) "v", cipher := getNatD (.obj o) "c" }
+    | _ => none
+  let target := getStrD impl "target"
+  let route : Option Route := match inp.getObjVal? "route" with
+    | .ok (.obj o) => some { hostOpt := s2l (getStrD (.obj o) "hostopt"), strip := s2l (getStrD (.obj o) "strip"),
+                             targetHost := s2l target, redirectCode := getNatD (.obj o) "rcode",
+                             hasRedirectURL := getStrD (.obj o) "rurl" != "" }
+    | _ => none
+  let hostOpt := match route with | some t => l2s t.hostOpt | none => ""
+  let uuid := "f47ac10b-58cc-0372-8567-0e02b2c3d479"
+  let h0 := ofWire (wireL wire)
+  let r : Req := { headers := h0, host := s2l host, remoteAddr := s2l remote, tls := tls, proto := s2l (getStrD inp "proto") }
+  let peer := specPeer remote
+  let keys : List String := (["X-Forwarded-For", "X-Real-Ip", "X-Forwarded-Proto", "X-Forwarded-Port", "X-Forwarded-Host",
+      "X-Forwarded-Prefix", "Forwarded"] ++
+      [cfg.clientIPHeader, cfg.tlsHeader, cfg.requestID].filterMap fun k =>
+        if k.isEmpty then none else some (l2s (canonicalKey k))).eraseDups
+  let proj (h : SHdrs) : SHdrs := sortHdrs (h.filter fun e => keys.contains e.1)
+  let isPanic := (impl.getObjVal? "panic").toOption.isSome || (impl.getObjVal? "harness_error").toOption.isSome
+  let iKind := getStrD impl "kind"
+  let iHdr := sortHdrs (parseHdrs impl "hdr")
+  let iSts := (getArrD impl "sts").toList.map fun v => match v with | .str s => s | _ => ""
+  let iHost := getStrD impl "uhost"
+  let reached := getBoolD impl "reached"
+  let out := serveHTTP cfg (s2l uuid) route r
+  -- what fabio put into the response header map (the in-process tunnel ends in fabio's own error response)
+  let (mKind, mHost, mHdr, mSts) := match out with
+    | .noRoute => ("noroute", "", ([] : SHdrs), ([] : List String))
+    | .redirect _ => ("redirect", "", [], [])
+    | .badPeer => ("badpeer", "", [], [])
+    | .forward k uh sent resp =>
+      (kindName k, (if uh.isEmpty then target else l2s uh), proj (toS sent), recv (toS resp) "Strict-Transport-Security")
+  let model := Json.mkObj [("kind", mKind), ("uhost", mHost), ("hdr", hdrsJson mHdr), ("sts", Json.arr (mSts.map Json.str).toArray)]
+  let agree := !isPanic && mKind == iKind && iHost == mHost && proj iHdr == mHdr && iSts == mSts &&
+    (reached == (mKind == "forward"))
+  let forwarded := iKind == "forward" || iKind == "tunnel"
+  let failing :=
+    if isPanic then ["panic"] else
+    -- nothing reaches the upstream unless the peer address could be read off RemoteAddr
+    (if reached && (splitHostPort (s2l remote)).isNone then ["forwarded-without-peer"] else []) ++
+    (if iKind == "other" then ["unexpected-response"] else []) ++
+    (if !forwarded || degenerateCfg cfg then [] else
+      specClauses { wire := wire, cfg := cfg, peer := peer, tls := tls.isSome, host := host, out := iHdr,
+                    viaReverseProxy := true, reqid := some uuid }) ++
+    (if stsSpec cfg tls.isSome (iKind == "forward") iSts then [] else ["sts"])
+  let u := upgradeClass wire tls.isSome
+  let cls :=
+    if !forwarded then iKind ++ (if tls.isSome then "/tls" else "") else
+    if degenerateCfg cfg then "config-collision" else
+      iKind ++ ":" ++ u ++ (if hostClass host != "" then "/host-ipv6" else "") ++
+      (if hostOpt == "" then "" else if hostOpt == "dst" then "/hostopt-dst" else "/hostopt-literal") ++
+      (if sentFirst wire "Accept" == "text/event-stream" then "/sse" else "")
+  let connNames := (sent wire "Connection").flatMap fun v => (splitComma (s2l v)).map fun t => lowerS (l2s (trimBlanks t))
+  let namesManaged := connNames.any fun n => n != "" && (managedLower.contains n ||
+      n == lowerS (l2s cfg.clientIPHeader) || n == lowerS (l2s cfg.tlsHeader) || n == lowerS (l2s cfg.requestID))
+  let cls := if forwarded && namesManaged then cls ++ "/conn-names-managed" else cls
+  let tag := match failing with
+    | [] => cls
+    | f :: _ => f ++ "@" ++ cls
+  return ({ model := model, agree := agree, spec := failing.isEmpty,
+            nontrivial := forwarded && (forgedCount wire cfg > 0 || hostOpt != ""), tag := tag } : Verdict).toJson
+
+def streams : List (String × Handler) :=
+  [("c08.unit", unitH), ("c08.proxy", proxyH), ("c08.hopbyhop", proxyH), ("c08.serve", serveH)]
 end Fabio.Driver.C08
